@@ -100,6 +100,7 @@ package literal
 //@ func (l *Literal) Float64
 //@   requires wfLit(l)
 //@   ensures[value-or-error] (result1 == nil) <==> l.t == Float64
+//@   ensures[value] result1 == nil ==> result0 == unbox(l.v, "float64")
 
 //@ func (l *Literal) Text
 //@   requires wfLit(l)
